@@ -7,7 +7,7 @@ from ..engine.loader import Unknown, norm_text, walk_local, FUNC_TYPES
 from ..engine.sym import is_sym
 from ..rules import thunks
 from ..rules.directives import run_directive, unwrap, G
-from ..rules.world import STATE, DOT, REL, Shapes, eager_interp, metacommand
+from ..rules.world import STATE, DOT, REL, Shapes, eager_interp, metacommand, metacommand_fn
 from . import c01
 
 EXPLANATION = (
@@ -197,7 +197,9 @@ def is_advance(stmt, c):
 def rule_R2(ck):
     repo = ck.repo
     pairs = 0
+    per_region = {}
     for q in LOOP_FUNCS:
+        per_region[q] = pairs
         if q == "metacommands::repeat":
             I = eager_interp(repo)
             fnc = I.explore(lambda: metacommand(I, ".repeat").fields["fn"])[0].value
@@ -242,8 +244,21 @@ def rule_R2(ck):
                         app = [t for t in b if isinstance(t, ast.AugAssign) and isinstance(t.op, ast.Add) and norm_text(t.value) == c and norm_text(t.target) != m[0]]
                         if not app:
                             ck.violation(s, f"the address is advanced by the length of {c} but {c} is not appended to the image in the same block", construct=f"advance of {c} without append")
-    if pairs < 5:
-        ck.unknown(f"only {pairs} accumulator pairs recognised (5 confirmed by hand)")
+        per_region[q] = pairs - per_region[q]
+    # a region without the `data += chunk` / `addr += length` idiom (an accumulator object, a helper ...) is decided by
+    # executing it: the law is the same - what is appended to the image advances the address by its length
+    expected = {"compiler::Compiler.compile_block": 3, "compiler::Compiler.compile_and_link_files": 1, "metacommands::repeat": 1}
+    for q, want in expected.items():
+        if per_region.get(q, 0) >= want:
+            continue
+        ck.instance(("pair-by-execution", q), {"function": q, "idiom sites found": per_region.get(q, 0), "decided by": "abstract execution"}, fn=q)
+        if q == "compiler::Compiler.compile_block":
+            rule_R3b(ck)
+        elif q == "compiler::Compiler.compile_and_link_files":
+            rule_R7(ck)
+        else:
+            from . import c16
+            c16.rule_R2(ck)
 
 
 def rule_R3(ck):
@@ -264,7 +279,12 @@ def rule_R3(ck):
                 if m:
                     A = m[0]
     if A is None:
-        raise Unknown("compile_block: address accumulator not found")
+        # no named accumulator (an accumulator object, a helper): the same facts are decided by executing compile_block
+        for what in ("emit_address", "start", "label-call", "label-store"):
+            ck.instance(what, {"accumulator": None, "decided by": "abstract execution (block law)"}, fn=where)
+        rule_R3b(ck)
+        _ip_resolves_to_dot(ck)
+        return
     loop = [n for n in walk_local(fn) if isinstance(n, ast.For)]
     if not loop:
         raise Unknown("compile_block: statement loop not found")
@@ -299,8 +319,12 @@ def rule_R3(ck):
     okl = stores and isinstance(stores[0].value, ast.Tuple) and len(stores[0].value.elts) == 2 and len(lparams) > 2 and norm_text(stores[0].value.elts[1]) == lparams[2]
     if not okl:
         ck.violation("compiler::Compiler.compile_label", "a label's value is not the address it was given", construct="label store")
+    _ip_resolves_to_dot(ck)
+
+
+def _ip_resolves_to_dot(ck):
     # '.' evaluates to state['emit_address']
-    I = eager_interp(repo)
+    I = eager_interp(ck.repo)
 
     def thunk():
         sh = Shapes(I)
@@ -314,57 +338,85 @@ def rule_R3(ck):
 
 def rule_R3b(ck):
     """compile_block, behaviourally: statement k is compiled with '.' = start + lengths of the chunks before it, a label gets
-    that same address, and the block's code is the concatenation - for plain and for deferred chunks"""
+    that same address and stores it as its value, a statement without bytes (None) moves nothing, every chunk - also one of
+    size zero - is part of the block's code (so that its deferred work runs), and the code is the concatenation; for plain
+    and for deferred chunks. The block is [insn, word list, insn -> None, insn of size 0, label, insn]."""
     repo = ck.repo
     where = "compiler::Compiler.compile_block"
     for deferred in (False, True):
         I = eager_interp(repo)
         I.summaries = {"reports::emit_report": I.summaries["reports::emit_report"]}
-        seen = []
-        L = [sym.var(f"len{i}", "int") for i in range(3)]
+        seen, evaluated = [], []
+        L = [sym.var(f"len{i}", "int") for i in range(4)]
 
-        def compile_insn(I_, fn, a, k):
-            i = len([x for x in seen if x[0] == "insn"])
-            seen.append(("insn", a[2]["emit_address"]))
+        def chunk(I_, i, size):
             if deferred:
                 SD = I_.module_get("deferred", "SizedDeferred")
-                return I_.instantiate(SD, [I_.builtin_types["bytes"], L[i], PyFn(lambda I2, aa, kk: sym.var(f"chunk{i}", "bytes"))], {})
-            return sym.var(f"chunk{i}", "bytes")
+                return I_.instantiate(SD, [I_.builtin_types["bytes"], size, PyFn(lambda I2, aa, kk: evaluated.append(i) or (b"" if size == 0 else sym.var(f"chunk{i}", "bytes")))], {})
+            evaluated.append(i)
+            return b"" if size == 0 else sym.var(f"chunk{i}", "bytes")
+
+        def compile_insn(I_, fn, a, k):
+            tag = a[1].fields["name"].fields["name"]
+            seen.append((tag, a[2]["emit_address"]))
+            if tag == "none":
+                return None
+            if tag == "empty":
+                return chunk(I_, 9, 0)
+            i = {"i0": 0, "i1": 2}[tag]
+            return chunk(I_, i, L[i])
+
+        def compile_word_list(I_, fn, a, k):
+            seen.append(("words", a[3]["emit_address"]))
+            return chunk(I_, 1, L[1])
         I.summaries["compiler::Compiler.compile_insn"] = compile_insn
-        I.summaries["compiler::Compiler.compile_label"] = lambda I_, fn, a, k: seen.append(("label", a[2], a[3]["emit_address"])) or None
+        I.summaries["compiler::Compiler.compile_word_list"] = compile_word_list
 
         def thunk():
             del seen[:]
+            del evaluated[:]
             sh = Shapes(I)
             comp = I.instantiate(I.module_get("compiler", "Compiler"), [], {})
             T = I.module_get("types", "Instruction")
-            items = [sh.mk(T, None, None, sh.symbol("nop"), []), sh.mk(T, None, None, sh.symbol("nop"), []), sh.mk(I.module_get("types", "Label"), None, None, "here", False),
-                     sh.mk(T, None, None, sh.symbol("nop"), [])]
+            items = [sh.mk(T, None, None, sh.symbol("i0"), []), sh.mk(I.module_get("types", "WordList"), None, None, [sh.number("1", 1)]), sh.mk(T, None, None, sh.symbol("none"), []),
+                     sh.mk(T, None, None, sh.symbol("empty"), []), sh.mk(I.module_get("types", "Label"), None, None, "here", False), sh.mk(T, None, None, sh.symbol("i1"), [])]
             block = sh.mk(I.module_get("types", "CodeBlock"), None, None, items)
             START = sym.var("START", "int")
-            data = I.call_method(comp, "compile_block", [{"context": "file", "link_base": {}}, block, START])
+            state = {"context": "file", "link_base": {}, "internal_symbol_prefix": ".internal1.", "internal_symbols_list": [], "extern_all": None, "compiler": comp, "filename": "a.mac"}
+            data = I.call_method(comp, "compile_block", [state, block, START])
             wait = I.module_get("deferred", "wait")
             res = [(x[0],) + tuple(I.call(wait, [v], {}) for v in x[1:]) for x in seen]
-            return I.call(wait, [data], {}), res
+            out = I.call(wait, [data], {})
+            tab = comp.fields["symbols"]
+            tab = tab.fields["container"] if isinstance(tab, Rec) else tab
+            ent = tab.get(".internal1.here")
+            ent = ent[1] if isinstance(ent, tuple) and len(ent) == 2 and isinstance(ent[1], tuple) else ent
+            label_value = I.call(wait, [ent[1]], {}) if isinstance(ent, tuple) and len(ent) == 2 else None
+            return out, res, label_value, sorted(evaluated)
         ps = I.explore(thunk)
         gen = [p for p in ps if all(v for k, v in p.decisions)] or ps
         p = gen[0]
         ck.instance(("block-addresses", deferred), {"deferred chunks": deferred, "addresses": repr(p.value[1]) if p.kind == "return" else repr(p.value)}, fn=where)
         if p.kind != "return":
-            ck.violation(where, f"compile_block on [insn, insn, label, insn] does not complete: {p.value!r}", construct="compile_block paths")
+            ck.violation(where, f"compile_block on [insn, word list, insn without bytes, empty insn, label, insn] does not complete: {p.value!r}", construct="compile_block paths")
             continue
-        data, res = p.value
+        data, res, label_value, evald = p.value
         START = sym.var("START", "int")
         ln = (lambda i: L[i]) if deferred else (lambda i: sym.op("len", sym.var(f"chunk{i}", "bytes")))
         a0, a1, a2 = START, sym.add(START, ln(0)), sym.add(sym.add(START, ln(0)), ln(1))
-        want = [("insn", a0), ("insn", a1), ("label", a2, a2), ("insn", a2)]
+        want = [("i0", a0), ("words", a1), ("none", a2), ("empty", a2), ("i1", a2)]
         if res != want:
-            bad = next((g, w) for g, w in zip(res + [None] * 4, want) if g != w)
-            ck.violation(where, f"in a block [insn, insn, label, insn] the {'label' if bad[1][0] == 'label' else 'statement'} is given address {bad[0]!r}, its bytes land at {bad[1]!r} (start + lengths of the chunks before it)",
+            bad = next((g, w) for g, w in zip(res + [None] * 6, want) if g != w)
+            ck.violation(where, f"in a block [insn, word list, insn without bytes, empty insn, label, insn] the statement '{bad[1][0]}' is given address {bad[0]!r}, its bytes land at {bad[1]!r} (start + lengths of the chunks before it)",
                          construct="compile_block running address", expected=repr(bad[1]), found=repr(bad[0]))
+        if label_value != a2:
+            ck.violation(where, f"the label after [insn, word list, insn without bytes, empty insn] gets the value {label_value!r}; the byte after it lies at {a2!r}", construct="label address", expected=repr(a2), found=repr(label_value))
         wantd = sym.cat(sym.cat(sym.var("chunk0", "bytes"), sym.var("chunk1", "bytes")), sym.var("chunk2", "bytes"))
         if data != wantd:
             ck.violation(where, f"the block's code is {data!r}, expected {wantd!r}", construct="compile_block concatenation")
+        if evald != [0, 1, 2, 9]:
+            ck.violation(where, f"after the block's code has been evaluated the chunks {sorted(set([0, 1, 2, 9]) - set(evald))} have not been (9 = a chunk of size zero): a directive without bytes whose work is deferred "
+                                "(make_raw with a forward-defined path, '.extern') never runs", construct="compile_block drops a chunk")
 
 
 def rule_R4(ck):
@@ -449,22 +501,35 @@ def rule_R6(ck):
             ck.violation(where, f"an included file that {'sets' if inner_sets else 'does not set'} its own base continues at {prom.fields.get('value')!r}, expected {want!r}", construct="include continuation", expected=repr(want), found=repr(prom.fields.get("value")))
         if code != sym.var("CODE", "bytes"):
             ck.violation(where, "compile_include does not return the included file's code", construct="include result")
-    # the caller hands '.' of the including statement
+    # the caller hands '.' of the including statement (abstract execution of the directive; file access, parser and compile_include stubbed)
     I = eager_interp(repo)
-    inc = I.explore(lambda: metacommand(I, ".include").fields["fn"])[0].value
-    calls = [c for c in ast.walk(inc.node) if isinstance(c, ast.Call) and isinstance(c.func, ast.Attribute) and c.func.attr == "compile_include"]
-    ck.instance("include-call", {"call": norm_text(calls[0]) if calls else None}, fn="metacommands::include")
-    if not calls or len(calls[0].args) < 2 or norm_text(calls[0].args[1]) != "state['emit_address']":
-        ck.violation("metacommands::include", "'.include' does not continue the included file at the address of the including statement", construct="include address argument")
-    # linked files: first file starts at the link-base promise
-    fn = repo.func("compiler::Compiler.compile_and_link_files")
-    init = [s for s in fn.body if isinstance(s, ast.Assign) and norm_text(s.targets[0]) == "addr"]
-    ck.instance("link-start", {"init": norm_text(init[0]) if init else None}, fn="compiler::Compiler.compile_and_link_files")
-    if not init or norm_text(init[0].value) != "link_base['promise']":
-        ck.violation("compiler::Compiler.compile_and_link_files", "the first linked file does not start at the link base", construct="link start")
-    calls = [c for c in ast.walk(fn) if isinstance(c, ast.Call) and norm_text(c.func) == "self.compile_file"]
-    if not calls or len(calls[0].args) < 3 or norm_text(calls[0].args[1]) != "addr" or norm_text(calls[0].args[2]) != "link_base":
-        ck.violation("compiler::Compiler.compile_and_link_files", "linked files are not compiled at the running address with the shared link base", construct="link continuation")
+    got = []
+    I.summaries = dict(I.summaries)
+    I.summaries["parser::parse"] = lambda I_, fn_, a, k: sym.var("PARSED", "obj")
+    I.summaries["compiler::Compiler.compile_include"] = lambda I_, fn_, a, k: got.append(tuple(a[1:])) or sym.var("INCLUDED", "bytes")
+    I.summaries["devices::resolve_relative_path"] = lambda I_, fn_, a, k: sym.var("PATH", "str")
+    DOT_ = sym.var("DOT_OF_INCLUDE", "int")
+
+    def thunk2():
+        del got[:]
+        sh = Shapes(I)
+        comp = I.instantiate(I.module_get("compiler", "Compiler"), [], {})
+        state = {"filename": "a.mac", "emit_address": DOT_, "insn": sh.symbol(".include"), "compiler": comp, "context": "file"}
+        r = I.call(metacommand_fn(I, ".include"), [state, "x.mac"], {})
+        return r, list(got)
+    try:
+        ps = [p for p in I.explore(thunk2) if p.kind == "return" and p.value[1]]
+    except Unsupported as ex:
+        raise Unknown(f"'.include' handler: {ex}") from None
+    ck.instance("include-call", {"compile_include called with": repr(ps[0].value[1]) if ps else None}, fn="metacommands::include")
+    if not ps:
+        raise Unknown("'.include' handler: no path reaches compile_include")
+    for p in ps:
+        r, calls_ = p.value
+        if len(calls_) != 1 or len(calls_[0]) < 2 or calls_[0][1] != DOT_:
+            ck.violation("metacommands::include", f"'.include' compiles the included file at {calls_[0][1] if calls_ and len(calls_[0]) > 1 else None!r}, not at the address of the including statement", construct="include address argument")
+        elif r != sym.var("INCLUDED", "bytes"):
+            ck.violation("metacommands::include", f"'.include' returns {r!r}, not the bytes of the included file", construct="include result")
 
 
 def rule_R7(ck):
@@ -565,7 +630,7 @@ def run(ck):
     ck.run_rule("C02.R3b", "compile_block: statement and label addresses, concatenation (abstract execution)", 2, rule_R3b)
     ck.run_rule("C02.R4", "length() siblings agree with the values they describe", 4, rule_R4)
     ck.run_rule("G1", "deferred thunks capture by value", 20, thunks.rule_G1)
-    ck.run_rule("C02.R6", "address continuation across included and linked files", 4, rule_R6)
+    ck.run_rule("C02.R6", "address continuation across included and linked files", 3, rule_R6)
     from ..rules import treeimm
     ck.run_rule("G4.re", "the value of '.' inside an expression is the current statement's, also when the same tree node is compiled again", 15, treeimm.rule_reresolve)
     ck.run_rule("G4.def", "the image and its length are values: no in-place growth, no cached length", 30, treeimm.rule_deferred_immutable)
